@@ -11,6 +11,7 @@ import (
 	"strings"
 	"sync"
 	"sync/atomic"
+	"syscall"
 	"time"
 
 	"verif/lib"
@@ -103,6 +104,20 @@ func c10Child(tier string, seed int64) {
 	}
 	profiles = append(profiles, reb.Text(), cbase.Text(), reb.Text())
 	docs = append(docs, rg.CanonicalJSONLD())
+	// documents whose @context is kept in a file of its own (referenced, or imported by an inline context): the
+	// JSON-LD processor's document loader runs inside every validation
+	ctxDir, _ := os.MkdirTemp("", "c10ctx")
+	defer os.RemoveAll(ctxDir)
+	for k, mode := range []string{"reference", "import", "reference"} {
+		gk := c05Graph(lib.CaseRand(seed, 10, 90+k))
+		doc, ctxText := gk.ContextByReference(filepath.Join(ctxDir, "context.jsonld"), mode)
+		_ = os.WriteFile(filepath.Join(ctxDir, "context.jsonld"), []byte(ctxText), 0o644)
+		docs = append(docs, doc)
+	}
+	// documents that are answered with an error from deep inside the normalizer (broken source maps): failure paths run concurrently too
+	docs = append(docs,
+		strings.Replace(lib.SourceMapDoc(), `"http://a.ml/vocabularies/document-source-maps#element":[{"@value":"http://ex.org/n1"}],`, "", 1),
+		strings.Replace(lib.SourceMapDoc(), `,"http://a.ml/vocabularies/document-source-maps#value":[{"@value":"[(7,2)-(9,4)]"}]`, "", 1))
 	fx := lib.LoadFixtures(6, 6)
 	profiles = append(profiles, fx.Profiles...)
 	docs = append(docs, fx.Data...)
@@ -165,6 +180,7 @@ func c10Child(tier string, seed int64) {
 	var clock int64
 	mixes := []string{"same-profile", "different-profiles", "shared-compiled", "compile-storm", "mixed-with-configurations", "failing-reports-under-different-configurations"}
 	for round := 0; round < rounds; round++ {
+		_ = os.WriteFile(os.Getenv("VERIF_C10_OUT")+".progress", []byte(fmt.Sprintf("%d\n", round)), 0o644)
 		r := lib.CaseRand(seed, 10, 1000+round)
 		n := []int{2, 4, 16, 64}[(round/6+round)%4]
 		if quick && n == 64 {
@@ -334,7 +350,58 @@ func c10(tier string) {
 		var buf bytes.Buffer
 		cmd.Stdout, cmd.Stderr = &buf, &buf
 		t0 := time.Now()
-		err := cmd.Run()
+		// watchdog on logical progress: the child notes every round it starts; a round (at most 64 operations that
+		// take milliseconds alone) that does not end within 300 s is dumped (SIGQUIT) and judged from the dump
+		progFile := resFile + ".progress"
+		_ = os.Remove(progFile)
+		err := cmd.Start()
+		stalled := false
+		if err == nil {
+			done := make(chan error, 1)
+			go func() { done <- cmd.Wait() }()
+			last, lastChange, lastCPU := "", time.Now(), int64(0)
+		wait:
+			for {
+				select {
+				case err = <-done:
+					break wait
+				case <-time.After(2 * time.Second):
+					pb, _ := os.ReadFile(progFile)
+					cpu := procCPUTicks(cmd.Process.Pid)
+					if string(pb) != last || cpu-lastCPU > 20 {
+						// a new round, or the process is computing (a loaded machine makes rounds slow, not idle)
+						last, lastChange, lastCPU = string(pb), time.Now(), cpu
+					} else if time.Since(lastChange) > 300*time.Second {
+						stalled = true
+						_ = cmd.Process.Signal(syscall.SIGQUIT)
+						select {
+						case err = <-done:
+						case <-time.After(20 * time.Second):
+							_ = cmd.Process.Kill()
+							err = <-done
+						}
+						break wait
+					}
+				}
+			}
+		}
+		if stalled {
+			dump := buf.String()
+			blocked := 0
+			for _, gr := range strings.Split(dump, "\n\ngoroutine ") {
+				head := strings.SplitN(gr, "\n", 2)[0]
+				if (strings.Contains(head, "chan send") || strings.Contains(head, "chan receive") || strings.Contains(head, "semacquire") || strings.Contains(head, "select") || strings.Contains(head, "sync.")) &&
+					strings.Contains(gr, "github.com/aml-org/amf-custom-validator/internal/") {
+					blocked++
+				}
+			}
+			if blocked > 0 {
+				ctx.Violation("concurrent-calls-blocked", fmt.Sprintf("GOMAXPROCS=%s: round %s of the concurrent workload made no progress and used no CPU for 300 s; %d goroutines are blocked inside the library (goroutine dump in the replay file)", procs, strings.TrimSpace(last0(progFile)), blocked), map[string]any{"goroutine_dump": clip(dump, 20000)})
+			} else {
+				ctx.Inconclusive(fmt.Sprintf("GOMAXPROCS=%s: the concurrent workload stalled but no goroutine is blocked inside the library (loaded machine?)", procs))
+			}
+			continue
+		}
 		ctx.Count("race_build_wall_seconds_gomaxprocs_"+procs, int(time.Since(t0).Seconds()))
 		b, rerr := os.ReadFile(resFile)
 		if rerr != nil {
@@ -386,6 +453,30 @@ func c10(tier string) {
 	ctx.Extra["overlapping_pairs_total"] = totalOverlap
 	ctx.MinDistinct = 50
 	ctx.Finish()
+}
+
+// procCPUTicks: user+system clock ticks consumed so far by the process and its threads (0 if unknown).
+func procCPUTicks(pid int) int64 {
+	b, err := os.ReadFile(fmt.Sprintf("/proc/%d/stat", pid))
+	if err != nil {
+		return 0
+	}
+	s := string(b)
+	if i := strings.LastIndex(s, ")"); i >= 0 {
+		f := strings.Fields(s[i+1:])
+		if len(f) > 13 {
+			var u, k int64
+			fmt.Sscan(f[11], &u)
+			fmt.Sscan(f[12], &k)
+			return u + k
+		}
+	}
+	return 0
+}
+
+func last0(file string) string {
+	b, _ := os.ReadFile(file)
+	return string(b)
 }
 
 func firstFatal(s string) string {
